@@ -7,18 +7,24 @@ import BufrModel.Drv.JsonUtil
 import BufrModel.Drv.State
 import BufrModel.Drv.BitsOp
 import BufrModel.Drv.PathOp
+import BufrModel.Drv.TemplateOp
 open Lean Bufr.Drv
 
 /-- stateless operations: one line per op (keep sorted by property to ease merging) -/
 def statelessOps : List (String × (Json → J Json)) := [
   ("bits", opBits),
   ("path", opPath),
-  ("path-enum", opPathEnum)
+  ("path-enum", opPathEnum),
+  ("normalize", opNormalize)
 ]
 
 /-- operations that read or change the driver state -/
 def statefulOps : List (String × (DrvState → Json → J (DrvState × Json))) := [
-  ("tables", opTables)
+  ("tables", opTables),
+  ("build", opBuild),
+  ("expand-row", opExpandRow),
+  ("expand-all", opExpandAll),
+  ("tables-wf", opTablesWf)
 ]
 
 def dispatch (st : DrvState) (j : Json) : J (DrvState × Json) := do
